@@ -88,7 +88,8 @@ def run_group(rep, prog, cprog, gname, seeds, patterns, expect_ret, entries, c_e
         got = rets.get((modname, q))
         if isinstance(got, Func):
             got = got.d
-        rep.ob('R-DEG(%s)' % gname, '%s:%s result' % (modname, q), got == want, 'result has degree %s (expected %s)' % (got, want), prog.mod(modname).rel if modname != 'C' else 'dadi', 0,
+        rep.ob('R-DEG(%s)' % gname, '%s:%s result' % (modname, q), got == want, ('result has degree %s (expected %s)' % (got, want)) if got is not None else
+               'degree of the result not evaluable (an operation the degree analysis does not know); expected %s' % want, prog.mod(modname).rel if modname != 'C' else 'dadi', 0,
                what='declared result degree under %s' % gname)
     rep.extra['functions_analysed_%s' % gname] = len(ctx.analysed_functions)
     for w_ in ctx.analysed_functions:
